@@ -151,6 +151,7 @@ struct InterObs : public Observer {
   std::vector<bool> on_mutual_cycle; // ... on a cycle through at least one other function
   bool precise_rec = false;
   bool bool_lhs_call = false; // some call site has a boolean lhs
+  bool finite_max_ctx = false; // max_call_contexts != UINT_MAX: contexts get joined
 
   InterObs(analyzer_t &an, CaseCtx &c, CGProgram &p) : a(an), ctx(c), cgp(p) {
     for (unsigned i = 0; i < p.funcs.size(); i++)
@@ -220,10 +221,6 @@ struct InterObs : public Observer {
   }
   // narrow classifier suffix for a failed block invariant of function fi
   std::string block_feat(unsigned fi, const std::string &r, bool block = true) {
-    // known finding: with precise recursion a recursive function whose exit is unreachable in
-    // the first pass (it never returns) gets no invariants at all: get_pre/get_post are bottom
-    if (block && precise_rec && on_cycle[fi] && mkind(r) == "M1" && inv(fi, cgp.funcs[fi]->prog.cfg->entry()).pre.is_bottom())
-      return KIND + "_recfun_without_invariants";
     // known finding: a call-graph cycle through >= 2 functions that is entered at a function
     // which is not the head chosen by the call-graph WTO: the call that closes the cycle is
     // replaced by top ("imprecise analysis of recursive call") and its calling context never
@@ -242,22 +239,75 @@ struct InterObs : public Observer {
     }
     if (!feat.empty())
       return KIND + feat;
-    // known finding (domain level): flat_boolean_numerical_domain::forget(vector)/project/rename
-    // return early when the boolean x numerical product is top and keep the hidden
-    // "b implies b' / b implies constraint" tables: the old definition of a boolean lhs
-    // survives a call, and the tables of the callee's locals leak into the caller through
-    // project() of a top exit value. Only the point meet (M4) can see hidden tables.
-    if ((DOM_CAPS & CAP_BOOL) && !cgp.sites.empty() && mkind(r) == "M4")
-      return KIND + "_flatbool_tables_survive_top";
+    // known findings (domain level, flat_boolean_numerical_domain; not specific to the
+    // inter-procedural analyzers but exposed by them):
+    //  (a) forget(vector)/project/rename return early when the boolean x numerical product is
+    //      top and keep the hidden "b implies b' / b implies constraint" tables: the old
+    //      definition of a boolean lhs survives a call, and tables about the caller's (resp.
+    //      callee's) variables leak through project() of a top entry (resp. exit) value;
+    //  (b) an "x implies b'" entry (from x := b') survives the join at a loop head with a state
+    //      in which x was redefined (x := constraint), seen intra-procedurally as well (tape
+    //      td_flatbool_hidden_tables_assign_bool_cst; not root-caused here).
+    // Hidden tables are only visible to the point meet (M4) until an assume/assert on the
+    // boolean materialises them; with a boolean lhs at a call (a) changes visible values too.
+    if ((DOM_CAPS & CAP_BOOL) && (mkind(r) == "M4" || bool_lhs_call))
+      return KIND + "_flatbool_hidden_tables";
+    // known finding: when the bound on calling contexts is exceeded the two oldest (pre,post)
+    // pairs are joined component-wise; the joined pair (pre1|pre2, post1|post2) says nothing
+    // true about inputs that lie in the hull pre1|pre2 but in neither pre1 nor pre2, yet it
+    // is reused (non-exact subsumption) for such calls
+    if (finite_max_ctx && what == "summary")
+      return KIND + "_ctx_join_hull_gap";
     return KIND + "_" + what + "_" + mkind(r);
   }
   std::string c02_tag(const std::string &what, int64_t id) {
     auto it = assert_fn.find(id);
+    if (it != assert_fn.end() && precise_rec && on_cycle[it->second])
+      return KIND + "_recfun_without_invariants"; // the unchecked calling context carries no verdict
     if (it != assert_fn.end() && on_mutual_cycle[it->second])
       return KIND + "_mutualrec_context_lost";
     if (!feat.empty())
       return KIND + feat;
+    if ((DOM_CAPS & CAP_BOOL) && bool_lhs_call)
+      return KIND + "_flatbool_hidden_tables";
     return KIND + "_" + what;
+  }
+  // ---- deferred verdict for block invariants of recursive functions (precise recursion) ----
+  // known finding: when the first pass over a recursive function already is a fixpoint (its
+  // exit is unreachable in that calling context: the invocation never returns)
+  // analyze_function returns without storing the invariants of that context, so
+  // get_pre/get_post miss it. Observable difference to any other lost context: the concrete
+  // invocation whose frame is not described never returns. So the failure is recorded, the
+  // execution goes on unjudged, and the tag is chosen when it is known whether an invocation
+  // of that function with those inputs returned.
+  struct Pending {
+    bool active = false, returned = false;
+    unsigned fi = 0;
+    State inputs;
+    std::string plain_tag, msg;
+  } pending;
+  bool defer_failure(unsigned fi, const State &s, const std::string &plain_tag, const std::string &msg) {
+    if (!(precise_rec && on_cycle[fi]))
+      return false;
+    pending.active = true;
+    pending.returned = false;
+    pending.fi = fi;
+    pending.inputs = State();
+    for (auto &v : cgp.funcs[fi]->inputs) {
+      auto it = s.num.find(v);
+      if (it != s.num.end())
+        pending.inputs.num[v] = it->second;
+    }
+    pending.plain_tag = plain_tag;
+    pending.msg = msg;
+    return true;
+  }
+  void resolve_pending() {
+    if (!pending.active)
+      return;
+    pending.active = false;
+    VCHECK(ctx, PROP, false, pending.returned ? pending.plain_tag : KIND + "_recfun_without_invariants",
+           pending.msg << (pending.returned ? " (an invocation with these inputs returns)" : " (the invocation with these inputs never returns)"));
   }
   const MemberOpts &opts() {
     if (full_budget > 0) {
@@ -275,7 +325,7 @@ struct InterObs : public Observer {
   }
 
   void block_entry(const cfg_t &cfg, const label_t &l, const State &s) override {
-    if (probe || !check_blocks)
+    if (probe || !check_blocks || pending.active)
       return;
     unsigned fi = fidx.at(&cfg);
     BlockInv &bi = inv(fi, l);
@@ -285,12 +335,17 @@ struct InterObs : public Observer {
       return;
     block_checks++;
     std::string r = member(s, bi.pre, opts());
+    if (!r.empty() && ctx.want(PROP) &&
+        defer_failure(fi, s, tag("pre", r, (int)fi),
+                      "state " + s.str() + " enters block " + l + " of " + cgp.funcs[fi]->name + " but is not in get_pre = " +
+                          to_str(bi.pre) + " : " + r))
+      return;
     VCHECK(ctx, PROP, r.empty(), tag("pre", r, (int)fi),
            "state " << s.str() << " enters block " << l << " of " << cgp.funcs[fi]->name << " but is not in get_pre = "
                     << to_str(bi.pre) << " : " << r);
   }
   void block_exit(const cfg_t &cfg, const label_t &l, const State &s) override {
-    if (probe || !check_blocks)
+    if (probe || !check_blocks || pending.active)
       return;
     unsigned fi = fidx.at(&cfg);
     BlockInv &bi = inv(fi, l);
@@ -300,6 +355,11 @@ struct InterObs : public Observer {
       return;
     block_checks++;
     std::string r = member(s, bi.post, opts());
+    if (!r.empty() && ctx.want(PROP) &&
+        defer_failure(fi, s, tag("post", r, (int)fi),
+                      "state " + s.str() + " leaves block " + l + " of " + cgp.funcs[fi]->name + " but is not in get_post = " +
+                          to_str(bi.post) + " : " + r))
+      return;
     VCHECK(ctx, PROP, r.empty(), tag("post", r, (int)fi),
            "state " << s.str() << " leaves block " << l << " of " << cgp.funcs[fi]->name << " but is not in get_post = "
                     << to_str(bi.post) << " : " << r);
@@ -320,6 +380,11 @@ struct InterObs : public Observer {
   }
   void call_returned(const cfg_t &callee, const State &inputs, const State &outputs) override {
     unsigned fi = fidx.at(&callee);
+    if (pending.active) {
+      if (fi == pending.fi && inputs.num == pending.inputs.num)
+        pending.returned = true;
+      return;
+    }
     check_summary(fi, inputs, outputs);
   }
 
@@ -362,6 +427,24 @@ struct InterObs : public Observer {
 
 namespace verif {
 void run_case(const uint8_t *data, size_t size, CaseCtx &ctx) {
+  static bool log_init = false;
+  if (!log_init) {
+    log_init = true;
+    if (const char *e = getenv("VERIF_CRABLOG")) {
+      std::string cur;
+      for (const char *q = e;; q++) {
+        if (*q == ',' || !*q) {
+          if (!cur.empty())
+            crab::CrabEnableLog(cur);
+          cur.clear();
+          if (!*q)
+            break;
+        } else
+          cur += *q;
+      }
+    }
+  }
+
   Tape t(data, size);
   crab::CrabSanityCheckFlag = false; // (prints to stdout and turns bottoms into CRAB_ERRORs)
   crab::CrabWarningFlag = false;
@@ -410,10 +493,10 @@ void run_case(const uint8_t *data, size_t size, CaseCtx &ctx) {
   co.const_cap = CONST_CAP;
 #ifdef H_BU
   co.allow_orphans = false; // documented restriction: main is the only function without callers
-  co.rec_num = 3;
+  co.rec_num = 4;
 #else
   co.allow_orphans = true;
-  co.rec_num = 8;
+  co.rec_num = 10;
 #endif
   CGProgram cgp;
   gen_callgraph(t, co, cgp);
@@ -576,6 +659,13 @@ void run_case(const uint8_t *data, size_t size, CaseCtx &ctx) {
     // cycle in the call graph that was not detected (the header says so itself)
     VCHECK(ctx, "C05", m.find("recursion depth exceeded") == std::string::npos, KIND + "_recursion_depth_abort",
            "analysis aborted: " << m);
+    if (m.find("in checking phase we should not analyze") != std::string::npos) {
+      // the interleaved checker met a call whose context has no stored summary and gave up:
+      // no result is produced, so nothing unsound; counted, and a failure only on request
+      R().diag(KIND + "_abort_in_checking_phase");
+      if (getenv("VERIF_INTER_ABORT_FAILS"))
+        VCHECK(ctx, PROP, false, KIND + "_abort_in_checking_phase", "analysis aborted: " << m);
+    }
     throw;
   }
   analyzer_t &a = *ap;
@@ -610,6 +700,7 @@ void run_case(const uint8_t *data, size_t size, CaseCtx &ctx) {
 #ifndef H_BU
   obs.check_blocks = pa.keep_invariants;
   obs.precise_rec = pa.analyze_recursive_functions;
+  obs.finite_max_ctx = pa.max_call_contexts != UINT_MAX;
 #endif
   std::map<std::string, cfg_t *> fmap;
   for (auto &f : cgp.funcs)
@@ -657,6 +748,7 @@ void run_case(const uint8_t *data, size_t size, CaseCtx &ctx) {
     } catch (const StopExec &se) {
       in.outside_reason = se.reason;
     }
+    obs.resolve_pending();
     total_blocks += in.blocks_visited;
     if (in.blocks_visited >= 3)
       long_execs++;
